@@ -232,8 +232,9 @@ Theorem perform_join_only_if : forall i used,
   (* both requests were answered and the room version is known *)
   pj_make_join_ok i = true /\ pj_send_join_ok i = true /\
   version_known (effective_version i) = true /\
-  (* the remote's state passes the federation-response checks *)
-  pj_check_ok i = true /\
+  (* the remote's state passes the federation-response checks, run with the very join event that
+     is handed back: the remote's copy if that is used, else the locally built one *)
+  (if used then pj_check_remote i else pj_check_own i) = true /\
   (* and its auth chain contains a create event of a known room version *)
   (exists e, In e (pj_auth_events i) /\ pa_type e = m_room_create /\ pa_state_key e = Some [] /\
              pa_content_ok e = true /\
@@ -242,8 +243,8 @@ Theorem perform_join_only_if : forall i used,
   (used = true -> exists r, pj_remote i = Some r /\ pr_parse_ok r = true /\
                   pr_membership r = Some s_join /\ pr_room_id r = pj_room_id i).
 Proof.
-  intros i used H. destruct (perform_join_ok i used H) as [A [V [_ [_ [_ U]]]]].
-  destruct (perform_join_admissible_meaning i A) as [P1 [P2 [P3 P4]]].
+  intros i used H. destruct (perform_join_ok i used H) as [A [V _]].
+  destruct (perform_join_admissible_meaning i used A) as [P1 [P2 [P3 [P4 P5]]]].
   repeat split; assumption.
 Qed.
 
@@ -253,7 +254,7 @@ Theorem C15_oracles_sound :
   (forall i, tr_out (make_leave i) = OOk -> make_leave_admissible i = true) /\
   (forall sign i, er_out (send_join sign i) = OOk -> send_join_admissible i = true) /\
   (forall sign i, er_out (handle_invite sign i) = OOk -> invite_admissible i = true) /\
-  (forall i used, perform_join i = PJJoined used -> perform_join_admissible i = true).
+  (forall i used, perform_join i = PJJoined used -> perform_join_admissible i used = true).
 Proof.
   repeat split; intros.
   - apply make_join_ok; assumption.
